@@ -80,7 +80,9 @@ class Choices
     // log-uniform over [lo, hi], lo > 0
     double log_uniform(double lo, double hi)
     {
-        return lo * std::exp(std::log(hi / lo) * unit32());
+        double l0 = std::log(lo), l1 = std::log(hi);
+        double v = std::exp(l0 + (l1 - l0) * unit32());
+        return v < lo ? lo : (v > hi ? hi : v);
     }
     // symmetric: sign from one byte, magnitude log-uniform
     double signed_log_uniform(double lo, double hi)
